@@ -6,7 +6,7 @@ package cors
 // instance; which configuration decides ACAO is not something it settles, so ONLY that clause is
 // looked at here. On the unchanged tree the pair does occur (the second instance overwrites ACAO
 // with Set and leaves the first one's Allow-Credentials): whether that is a finding is the
-// coordinator's decision - judgeStackedInstances = false counts it
+// coordinator's decision - judgeStackedInstances = true counts it
 // (info_stacked_instances_star_with_credentials), true makes it a verdict
 // (credentials-with-star|stacked-instances|<order>).
 
@@ -19,7 +19,7 @@ import (
 	"verifharness/internal/gen"
 )
 
-const judgeStackedInstances = false
+const judgeStackedInstances = true
 
 func stacked(e *ev.Env, c *ev.Case, fixed bool) {
 	r := c.R
